@@ -544,7 +544,7 @@ def optvar2_panel(tier):
     sd = _seed()
     r = S.rnd(("optvar2", sd))
     out = []
-    nsc = 16 if tier == "quick" else 120
+    nsc = 22 if tier == "quick" else 160
     groups = [
         {"tol_poi": 0.0}, {"tol_poi": 1e-2}, {"min_failed_poll_steps": 1}, {"min_failed_poll_steps": 0, "consecutive_skipping": False},
         {"improvement_quantile": 0.3}, {"incumbent_sigma_multiplier": 0.5}, {"uncertain_incumbent": False},
@@ -553,6 +553,9 @@ def optvar2_panel(tier):
         {"final_quantile": 0.1}, {"alternative_incumbent": True}, {"adaptive_incumbent_shift": True},
         {"nonlinear_scaling": False}, {"noise_size": 0.5}, {"gp_rescale_poll": 0.5}, {"search_optimize": True},
         {"poll_training": False}, {"remove_points_after_tries": 2},
+        {"gp_mean_fun": "zero"}, {"gp_mean_fun": "negquad"}, {"upper_gp_length_factor": 2.0}, {"gp_mean_percentile": 50},
+        {"hedge_gamma": 0.3, "hedge_decay": 0.5}, {"es_beta": 2.0, "es_start": 0.5}, {"n_search": 128},
+        {"gp_train_n_init": 16, "gp_train_n_init_final": 2}, {"mesh_overflow_warning": 1},
         # not varied: fit_lik=False selects a fixed-noise ("delta") hyperprior that gpyreg does not implement -- an
         # unported feature that fails with gpyreg's "Unknown hyperprior type delta", like periodic_vars
     ]
